@@ -17,7 +17,9 @@ class C06(Prop):
     id = "C06"
     level = "exploration"
     title = "`the` returns the unique solution or raises, consistently with `an`"
-    campaigns = {"quick": [("main", 60000, 60)], "thorough": [("main", 1500000, 1500)]}
+    campaigns = {"quick": [("main", 60000, 60), ("known:shared_conditions_suspended_iterator_warm_cache", 2000, 40)],
+                 "thorough": [("main", 1500000, 1500),
+                              ("known:shared_conditions_suspended_iterator_warm_cache", 60000, 400)]}
     chunk = 50
     rule = ("seeded descriptions in which every variable is selected (entity(x, c(x)) / set_of([x,y], c(x,y)) with "
             "joins, negation, predicates, nested sub-queries) over 1-4 element domains so that 0, 1 and >= 2 solutions "
@@ -55,6 +57,12 @@ class C06(Prop):
         t["quant"] = "the"
         shared = rng.random() < 0.5
         if shared and rng.random() < 0.4:
+            if rng.random() < 0.6:
+                cg = G.CondGen(rng, cfg, world, list(q["sel"]), {})
+                cand = {"conds": [["or", cg.atom(list(q["sel"])), cg.atom(list(q["sel"]))]]}
+                if not G.query_regions(cand):
+                    q["conds"] = cand["conds"]
+                    t["conds"] = copy.deepcopy(cand["conds"])
             t["conds_from"] = "q0"      # one condition object used by both the `an` and the `the` query
         pool["queries"].append(t)
         ops = []
@@ -70,6 +78,22 @@ class C06(Prop):
             else:
                 ops.append(["the", rng.choice([0, 0, 1, 3])])
         ops.append(["the", 0])
+        warm = campaign == "known:shared_conditions_suspended_iterator_warm_cache"
+        if warm:
+            t["conds_from"] = "q0"
+            shared = True
+            if rng.random() < 0.5:
+                ops = [rng.choice([["the", 0], ["an_full"]]), ["an_keep", rng.choice([1, 2])]] + ops[:3] + [["the", 0]]
+            else:
+                ops = [["an_keep", rng.choice([1, 2])]] + [o for o in ops if o[0] != "an_keep"][:3] + [["the", 0]]
+        elif t.get("conds_from"):
+            # condition objects shared by the `an` and the `the` query: an `an` iterator may be left suspended only
+            # while the operator caches are still cold, i.e. as the very first evaluation (warm: KF-C06-1)
+            # ... and only when the shared condition is one flat disjunction of atoms: then every de-duplicating node
+            # has a different parent in the two queries and the engine keeps their state apart (nested: KF-C06-1)
+            ops = [o for o in ops if o[0] != "an_keep"]
+            if _flat_disjunction(q) and rng.random() < 0.8:
+                ops.insert(0, ["an_keep", rng.choice([1, 1, 2])])
         return {"world": world, "pool": pool, "ops": ops, "cfg": cfg, "shared": shared}
 
     def execute(self, plan):
@@ -192,6 +216,13 @@ class C06(Prop):
             c = copy.deepcopy(plan)
             c["shared"] = False
             yield c
+
+
+def _flat_disjunction(q):
+    conds = q.get("conds", [])
+    if len(conds) != 1 or conds[0][0] != "or":
+        return False
+    return all(c[0] in ("cmp", "in", "fp", "cp", "ht") for c in conds[0][1:])
 
 
 PROP = C06()
